@@ -62,6 +62,11 @@ class Ctx:
     # -- recording ---------------------------------------------------------
     def rule(self, rid, text, floor=None):
         self.rules[rid] = text
+        try:
+            from .floors import FLOORS
+            floor = FLOORS.get(rid, floor)
+        except ImportError:
+            pass
         if floor is not None:
             self.floors[rid] = floor
 
